@@ -37,6 +37,8 @@ pub fn extract_from_multiple_archives<P: AsRef<Path> + Sync>(
         .par_iter()
         .map(|path| {
             let path_ref = path.as_ref();
+            #[cfg(warcraft_rs_verif)]
+            let _verif_task = crate::verif_hooks::TaskGuard::new(&path_ref.to_string_lossy());
             match Archive::open(path_ref) {
                 Ok(mut archive) => match archive.read_file(file_name) {
                     Ok(data) => Ok((path_ref.to_path_buf(), data)),
@@ -86,6 +88,8 @@ pub fn extract_multiple_from_multiple_archives<P: AsRef<Path> + Sync>(
         .par_iter()
         .map(|path| {
             let path_ref = path.as_ref();
+            #[cfg(warcraft_rs_verif)]
+            let _verif_task = crate::verif_hooks::TaskGuard::new(&path_ref.to_string_lossy());
             let mut archive = Archive::open(path_ref)?;
 
             let files: Result<Vec<_>> = file_names
@@ -129,6 +133,8 @@ pub fn search_in_multiple_archives<P: AsRef<Path> + Sync>(
         .par_iter()
         .map(|path| {
             let path_ref = path.as_ref();
+            #[cfg(warcraft_rs_verif)]
+            let _verif_task = crate::verif_hooks::TaskGuard::new(&path_ref.to_string_lossy());
             let mut archive = Archive::open(path_ref)?;
             let files = archive.list()?;
 
